@@ -55,6 +55,16 @@ M_Loader ==
   IsFinal /\ ev.returned /\ ~ev.panic /\ ev.haslog /\ ev.err = "" =>
      S(ev.loaded.ents) = LoaderKeeps(inst.D, inst.Kind, ev.res, inst.N, inst.Start)
 
+\* a loader that is given entries only derives the heads as the entries no other loaded entry names as predecessor
+\* (next only - skip references do not count); the manifest loader keeps the listed heads it could load
+M_LoadedHeads ==
+  IsFinal /\ ev.returned /\ ~ev.panic /\ ev.haslog /\ ev.err = "" =>
+     IF inst.Kind = "mh" THEN S(ev.loaded.heads) = S(inst.Start) \cap S(ev.loaded.ents)
+     ELSE S(ev.loaded.heads) = MaximalOf(inst.D, S(ev.loaded.ents))
+
+\* every admitted entry is signalled on the progress channel, once, in admission order
+M_Progress == IsFinal /\ ev.returned /\ ~ev.panic => ev.progress = ev.res
+
 \* ---- Layer P -------------------------------------------------------------
 ReachAll == Reach(inst) \cup Sources
 Ents == IF inst.Kind = "fetch" THEN S(ev.result) ELSE S(ev.loaded.ents)
@@ -66,8 +76,8 @@ C11_NoDupResult  == IsFinal => NoDup(ev.result) /\ NoDup(ev.res)
 C11_NoDupRequest == IsFinal => NoDup(ev.reqs)
 C11_NoExcludedRequest == IsFinal => S(ev.reqs) \cap inst.Excluded = {}
 C11_ConcurrencyBound  == IsFinal => ev.maxgets <= inst.Conc
-\* with a configured timeout the load returns within it (2 s of slack for scheduling noise)
-C11_WithinTimeout == IsFinal /\ inst.RealTimeout > 0 => ev.returned /\ ev.elapsed_ms <= inst.RealTimeout + 2000
+\* with a configured timeout the load returns within it (15 s of slack: the checks may run on a heavily loaded machine)
+C11_WithinTimeout == IsFinal /\ inst.RealTimeout > 0 => ev.returned /\ ev.elapsed_ms <= inst.RealTimeout + 15000
 C11_WithinReach  == Completed => Ents \subseteq ReachAll /\ S(ev.res) \subseteq Reach(inst)
 C11_ExactReach   == Completed /\ inst.N < 0 /\ ~ev.timedout /\ inst.RealTimeout = 0 => S(ev.res) = Reach(inst) /\ Ents = ReachAll
 \* a loader never fails because of faulty blocks: it returns what is reachable
